@@ -12,6 +12,7 @@ import Scico.Proofs.OpAlgStackTree
 import Scico.Proofs.OpAlgPlain
 import Scico.Proofs.OpAlgNonlin
 import Scico.Proofs.OpAlgFreeze
+import Scico.Proofs.OpAlgRep
 
 namespace Scico.Props.C05
 open Scico.OpAlg Scico.DType
@@ -114,6 +115,46 @@ theorem C05_freeze_slice_join (o : Obj K) (k : Int) (valSh : Shape) (valDt : DT)
     | cons d0 ds =>
       obtain ⟨_, _, _, _, _, hev⟩ := (join_spec f d0 ds hd).2 r hr
       exact hev x
+
+/-- **Replicated stacking: the documented block formula `H(x)_k = A(x_k)`.**  For an accepted
+    `DiagonalReplicated(op, N, input_axis, output_axis)` (axes at positions `a`, `b`; `P_in`, `P_out` the
+    numbers of elements behind them) and every replicate `k < N`: entry `r` of replicate `k` of `H(x)` —
+    flat index `joinIdx N P_out k r` — is entry `r` of `op` applied to replicate `k` of `x`, whose entry
+    `j` is `x[joinIdx N P_in k j]`; every flat index of the output is of this form; and (linear case) the
+    adjoint is the same construction with `op.adj` and the two axes exchanged. -/
+theorem C05_drep_blocks (lin : Bool) (o : Obj K) (N : Nat) (ia : Int) (oa : Option Int) (r : Obj K)
+    (h : drep lin o N ia oa = .ok r) (hm : 0 < o.m) (hn : 0 < o.n) :
+    ∃ pin pout, 0 < pin ∧ 0 < pout
+      ∧ (∀ (x : Vc K) k i, k < N → i < o.m →
+          (r.eval x).get (joinIdx N pout k i) = (o.eval (vtake o.n N pin k x)).get i)
+      ∧ (∀ (x : Vc K) k j, j < o.n → (vtake o.n N pin k x).get j = x.get (joinIdx N pin k j))
+      ∧ (∀ t, 0 < N → joinIdx N pout (repK N pout t) (repRest N pout t) = t)
+      ∧ (lin = true → ∀ (y : Vc K) k j, k < N → j < o.n →
+          (r.adj y).get (joinIdx N pin k j) = (o.adj (vtake o.m N pout k y)).get j) := by
+  obtain ⟨din, dout, a, b, h1, h2, _, _, _, _, _, _, _, _, hev, had⟩ := drep_spec lin o N ia oa r h
+  have hmA : o.m = prodL (dout.take b) * prodL (dout.drop b) := by
+    simp only [Obj.m, h2, Shape.size]; exact (prodL_take_drop dout b).symm
+  have hnA : o.n = prodL (din.take a) * prodL (din.drop a) := by
+    simp only [Obj.n, h1, Shape.size]; exact (prodL_take_drop din a).symm
+  have hpout : 0 < prodL (dout.drop b) := by
+    rcases Nat.eq_zero_or_pos (prodL (dout.drop b)) with h0 | h0
+    · rw [h0, Nat.mul_zero] at hmA; omega
+    · exact h0
+  have hpin : 0 < prodL (din.drop a) := by
+    rcases Nat.eq_zero_or_pos (prodL (din.drop a)) with h0 | h0
+    · rw [h0, Nat.mul_zero] at hnA; omega
+    · exact h0
+  refine ⟨prodL (din.drop a), prodL (dout.drop b), hpin, hpout, ?_, ?_, ?_, ?_⟩
+  · intro x k i hk hi
+    rw [hev x]
+    exact vgather_block N _ _ o.m hmA hpout _ k i hk hi
+  · intro x k j hj
+    rw [vtake_get]; simp [hj]
+  · intro t hN
+    exact joinIdx_repK_repRest N _ t hpout hN
+  · intro hl y k j hk hj
+    rw [had hl y]
+    exact vgather_block N _ _ o.n hnA hpin _ k j hk hj
 
 /-- the declared `matrix_shape` is the shape of the denoted matrix, and a linear expression is
     always built as a `LinearOperator` -/
